@@ -237,6 +237,11 @@ class ShareSet:
     @classmethod
     def interpolate(cls, x, share_data):
         """Gets the y value at a particular x"""
+        # at one of the given points the value is the point's own (the log tables
+        # below cannot express the zero factor x - x_i)
+        for share_x, share_bytes in share_data:
+            if share_x == x:
+                return share_bytes
         # we're using the LaGrange formula
         # https://github.com/satoshilabs/slips/blob/master/slip-0039/lagrange.png
         # the numerator of the multiplication part is what we're pre-computing
